@@ -263,7 +263,7 @@ def generate(tier, seed, wd, log):
 def l1_config_of(hcfg):
     """The PoolImpl constants that correspond to a harness pool configuration."""
     def plan(p):
-        sy = lambda k: "sync" if k in ("sfut", "sobj") else k      # noqa: E731  (a plain callback that returns a future is a plain callback)
+        sy = lambda k: "sync" if k in ("sfut", "sobj", "swrap") else "async" if k == "amark" else k      # noqa: E731  (a plain callback that returns a future is a plain callback)
         return {"imm": bool(p.get("imm", False)), "onc": p.get("onc", "prop"), "ecb": sy(p.get("ecb", "none")), "ccb": sy(p.get("ccb", "none")),
                 "bad": set(p.get("bad", []))}
     if hcfg["cls"] == "SimpleTaskPool":
